@@ -313,20 +313,23 @@ func appAuthDriver(a *Args) {
 		return
 	}
 	defer e.stop()
-	bA := appBackend{ID: "backend-a", EndUser: "alice@example.com", BackendUser: "agent-a@example.com", Prefixes: []string{"/"}, live: true}
-	bB := appBackend{ID: "backend-b", EndUser: "bob@example.com", BackendUser: "agent-b@example.com", Prefixes: []string{"/"}, live: true}
+	pend := map[string]string{}
+	secret := map[string]string{}
+	// one pass of the access-control cases for a pair of backend IDs
+	authPass := func(idA, idB, tag string, stride int) bool {
+	utag := strings.NewReplacer(":", "-").Replace(tag)
+	bA := appBackend{ID: idA, EndUser: "alice" + utag + "@example.com", BackendUser: "agent-a" + utag + "@example.com", Prefixes: []string{"/"}, live: true}
+	bB := appBackend{ID: idB, EndUser: "bob" + utag + "@example.com", BackendUser: "agent-b" + utag + "@example.com", Prefixes: []string{"/"}, live: true}
 	for _, b := range []appBackend{bA, bB} {
 		if st := e.addBackend(b); st != 200 {
 			res.Bad("cannot add backend: %d", st)
-			return
+			return false
 		}
 		e.setLastSeen(b.ID, time.Now())
 	}
-	hx.Reset("appauth", "appauth")
+	hx.Reset("appauth"+tag, "appauth")
 	hx.Emit("Backends", "list", backendsEvent([]appBackend{bA, bB}))
 	// each backend always has a pending client request (so that an authorised list call returns at once)
-	pend := map[string]string{}
-	secret := map[string]string{}
 	ensurePending := func(b appBackend) {
 		rid := pend[b.ID]
 		if rid != "" {
@@ -344,6 +347,9 @@ func appAuthDriver(a *Args) {
 		secret[rid] = sec
 	}
 	for i, c := range cases.Auth {
+		if i%stride != 0 {
+			continue
+		}
 		ensurePending(bA)
 		ensurePending(bB)
 		identity := map[string]string{"absent": "", "wrong": "stranger@example.com", "right": bA.BackendUser, "other-backends-agent": bB.BackendUser, "end-user": bA.EndUser,
@@ -421,10 +427,21 @@ func appAuthDriver(a *Args) {
 			}
 			call := map[string]interface{}{"endpoint": c.Endpoint, "oauth": identity, "backend": named, "rid": ridKind}
 			obs := map[string]interface{}{"status": st, "leaked": leaked, "changed": before != after, "own_only": ownOnly}
-			sig := fmt.Sprintf("auth:%s/%s/%s/%s", c.Endpoint, c.Identity, c.Backend, c.Rid) + form
-			hx.Emit("AgentCall", "case", fmt.Sprint(i)+form, "sig", sig, "call", call, "obs", obs)
+			sig := fmt.Sprintf("auth:%s/%s/%s/%s", c.Endpoint, c.Identity, c.Backend, c.Rid) + form + tag
+			hx.Emit("AgentCall", "case", fmt.Sprint(i)+form+tag, "sig", sig, "call", call, "obs", obs)
 			res.Case(sig, map[string]interface{}{"classes": c, "status": st})
 		}
+	}
+		return true
+	}
+	if !authPass("backend-a", "backend-b", "", 1) {
+		return
+	}
+	// boundary: IDs far longer than usual that differ in their very last byte only (anything that shortens or hashes
+	// an ID - a key of bounded length, a prefix comparison - would take the two for one)
+	long := "team-" + strings.Repeat("0123456789abcdef", 15) + "-backend-"
+	if !authPass(long+"a", long+"b", ":long-ids", 3) {
+		return
 	}
 	// registrations that change over time (histories enumerated by TLC from AppAuth.tla): every agent call is
 	// judged against the registration in force when it is made
